@@ -37,6 +37,19 @@ COMPONENTS = {
 DIRS = ["p", "p/a", "p/a/b", "p/a/b/c", "p/s", "."]
 
 
+NESTED = '''/// ```
+/// fn doc() {
+///     foo(aaaaaaaaaaaaaaaaaaaaa, bbbbbbbbbbbbbbbbbbbbb, ccccccccccccccccccccc);
+/// }
+/// ```
+mod m {
+    macro_rules! mac {
+        () => {
+            foo(aaaaaaaaaaaaaaaaaaaaa, bbbbbbbbbbbbbbbbbbbbb, ccccccccccccccccccccc);
+        };
+    }
+}
+'''
 EMITTER_OPTS = [("emit_mode", '"Stdout"'), ("emit_mode", '"Json"'), ("emit_mode", '"Checkstyle"'), ("make_backup", "true"),
                 ("print_misformatted_file_names", "true"), ("emit_mode", '"Diff"'), ("emit_mode", '"Coverage"')]
 
@@ -492,6 +505,22 @@ def execute(case):
                 dk = sorted(k for k in set(a) | set(b) if a.get(k) != b.get(k))
                 cause = "heuristic-widths-above-max_width" if over and set(dk) <= set(gen_config.WIDTHS) else ",".join(dk[:4])
                 v.add("C14:dump-not-fixpoint|%s" % cause, "%s: dump fed back through --config-path dumps differently in %s (exit %s)" % (p, {k: (a.get(k), b.get(k)) for k in dk[:6]}, rf.status()))
+            elif case["hashseed"] % 2 == 0:
+                # the dump is a fixpoint as a text; is it the same configuration?  A source with nested formatting
+                # contexts (a macro body, a code block in a doc comment), which re-derive the widths from a smaller
+                # page, must come out the same under the effective configuration and under its dump
+                world_n = os.path.join(sc.root, "zref", "nested.rs")
+                with open(world_n, "w") as f:
+                    f.write(NESTED)
+                outs = []
+                for cfgp in ("eff.toml", "dump.toml"):
+                    rn = core.run_inv(sc, {"argv": ["--emit", "stdout", "--config-path", "$ROOT/zref/" + cfgp, "zref/nested.rs"],
+                                           "env": refenv, "hashseed": case["hashseed"]})
+                    v.account(rn, nontrivial=False)
+                    outs.append((rn.exit, rn.stdout))
+                if outs[0][0] == 0 and outs[1][0] == 0 and outs[0][1] != outs[1][1]:
+                    v.add("C14:dump-formats-differently|derived-widths", "%s: a source with nested contexts is formatted differently under the effective options %s and under their --print-config dump" % (p, eff), probe=p)
+                v.probe("dump-vs-effective-formatting")
         nested = [p for p in probes if effs[p][0] and any(effs[q][0] and effs[q][0] != effs[p][0] and os.path.dirname(effs[p][0]).startswith(os.path.dirname(effs[q][0]) + "/") for q in probes)]
         if nested:
             v.probe("nested-configs-in-one-invocation")
